@@ -16,13 +16,13 @@ Chk(name, cond) == IF ~cond THEN {name} ELSE {}
 Bits(f) == [i \in 1..Len(f) |-> IF f[i] THEN 1 ELSE 0]
 
 \* the lines the tool must print for one input, in order: <<shown file name, 0-based index, text>>
-RECURSIVE ExpLines(_, _, _, _, _, _)
-ExpLines(aut, name, lines, j, color, acc) ==
-  IF j > Len(lines) THEN acc
-  ELSE LET r == ProcessLine(aut, lines[j], color) IN
-       ExpLines(aut, name, lines, j + 1, color,
-                IF r.printed THEN Append(acc, [file |-> name, idx |-> j - 1, text |-> lines[j], hl |-> Bits(r.hl)])
-                ELSE acc)
+\* (IterRange: the sequential loop evaluated by divide and conquer -- inputs of thousands of lines)
+ExpLines(aut, name, lines, j, color, acc0) ==
+  IterRange(LAMBDA acc, k :
+              LET r == ProcessLine(aut, lines[k], color) IN
+              IF r.printed THEN Append(acc, [file |-> name, idx |-> k - 1, text |-> lines[k], hl |-> Bits(r.hl)])
+              ELSE acc,
+            acc0, j, Len(lines))
 
 RECURSIVE ExpAll(_, _, _, _, _)
 ExpAll(aut, inputs, k, ev, acc) ==
